@@ -540,6 +540,27 @@ def handleTracer (j : Json) : Except String Json := do
       | .const c => Json.mkObj [("c", toJson c)]).toArray)]
   pure (Json.mkObj [("count", toJson s.count), ("tracing", toJson s.tracing), ("nodes", Json.arr nodes.toArray)])
 
+/-- evaluations of a graph with a constant work array updated by accumulating writes:
+`{"op":"workarray","undo":true,"ws":[[0,1],[0,2]],"h0":["0","0","0"],"rec":[[1,"1/2"],[2,"1/4"]],"calls":[[[1,"2"],[2,"4"]]],"out":0}` -/
+def handleWorkarray (j : Json) : Except String Json := do
+  let undo ← j.getObjValAs? Bool "undo"
+  let wsj ← j.getObjValAs? (Array (Array Nat)) "ws"
+  let ws := wsj.toList.map fun a => (a.getD 0 0, a.getD 1 0)
+  let h0s ← j.getObjValAs? (Array String) "h0"
+  let h0 ← h0s.toList.mapM fun s => match parseRat s with | some v => pure v | none => throw "bad rat"
+  let pairs (a : Array Json) : Except String (List (Nat × Rat)) :=
+    a.toList.mapM fun e => do
+      let arr ← (fromJson? e : Except String (Array Json))
+      let c ← (fromJson? (arr.getD 0 Json.null) : Except String Nat)
+      let vs ← (fromJson? (arr.getD 1 Json.null) : Except String String)
+      match parseRat vs with | some v => pure (c, v) | none => throw "bad rat"
+  let recIns ← pairs (← j.getObjValAs? (Array Json) "rec")
+  let callsj ← j.getObjValAs? (Array (Array Json)) "calls"
+  let calls ← callsj.toList.mapM pairs
+  let out ← j.getObjValAs? Nat "out"
+  let r := Tracer.accHistory undo ws h0 recIns calls out
+  pure (Json.mkObj [("r", Json.arr (r.map fun v => Json.str (showRat v)).toArray)])
+
 /-- forward drivers: seed tables and extraction -/
 def handleDrivers (j : Json) : Except String Json := do
   let what ← j.getObjValAs? String "what"
@@ -588,6 +609,7 @@ def handle (j : Json) : Except String Json := do
   if (j.getObjValAs? String "op").toOption == some "pade" then return (← handlePade j)
   if (j.getObjValAs? String "op").toOption == some "drivers" then return (← handleDrivers j)
   if (j.getObjValAs? String "op").toOption == some "tracer" then return (← handleTracer j)
+  if (j.getObjValAs? String "op").toOption == some "workarray" then return (← handleWorkarray j)
   if (j.getObjValAs? String "op").toOption == some "nth" then return (← handleNth j)
   if (j.getObjValAs? String "op").toOption == some "piv" then return (← handlePiv j)
   if (j.getObjValAs? String "op").toOption == some "interp" then return (← handleInterp j)
